@@ -65,6 +65,7 @@ class Ctx:
         self.extra_axioms = []  # [(node, rel)] assumed facts (domain of ops)
         self.n_compare = 0
         self.rng = None
+        self.rng_perm = None     # callable(n) -> permutation used by the np.random.shuffle stub
         self.allow_ties = False  # tie runs: an exactly tied order comparison is recorded as '==' and the run goes on
 
     def set_model(self, model):
